@@ -12,6 +12,7 @@ Optional in-process instrumentation for the fast mode (all injected from here, n
   clock   : list of ints consumed by time.time() as seen by conductor.execution.version_index
   crash_at: k -> os._exit(137) at the k-th main-thread line event of the selected files (E3)
   count   : record the number of line events (and the sites) instead of crashing
+  crash_on_audit: {events: [...], nth: k} -> os._exit(137) when the k-th of those audit events is raised
 """
 import json
 import os
@@ -91,6 +92,22 @@ def _child(argv, cwd, env, out_path, err_path, stdin_path, opts):
                 pass
 
         sys.addaudithook(hook)
+
+    if opts.get("crash_on_audit"):
+        # deterministic crash point: the process dies (as if SIGKILLed) when the n-th audit event out of a set is
+        # raised, i.e. BEFORE that operation happens and after the n-1 earlier ones have completed
+        coa = dict(opts["crash_on_audit"])
+        coa_events = set(coa["events"])
+        coa_state = {"n": 0}
+        coa_main = threading.get_ident()
+
+        def coa_hook(event, args):
+            if event in coa_events and threading.get_ident() == coa_main:
+                coa_state["n"] += 1
+                if coa_state["n"] == coa["nth"]:
+                    os._exit(137)
+
+        sys.addaudithook(coa_hook)
 
     if opts.get("stdout_log"):
         # every write to Conductor's stdout/stderr also lands, with a monotonic timestamp, in a JSONL
